@@ -233,19 +233,27 @@ func (c *storeCase) step(rng *rand.Rand, weird bool) {
 		if c.kind != "mem" && off == "" { // saving "" comes back as "0" on SQLite: equivalent position, excluded (DESIGN)
 			off = "1"
 		}
-		err := c.stores[k].SaveOffset(ctx, fmt.Sprintf("sub-%d", id), off)
-		c.ops = append(c.ops, C("SSave", Nat(k), Nat(id), offT(off)))
-		c.obs = append(c.obs, C("RSave", B(err == nil)))
-		c.tags["save"] = true
+		c.doSave(k, id, off)
 	default:
-		id := rng.Intn(4)
-		off, err := c.stores[k].LoadOffset(ctx, fmt.Sprintf("sub-%d", id))
-		c.ops = append(c.ops, C("SLoad", Nat(k), Nat(id)))
-		if err != nil {
-			c.obs = append(c.obs, C("RLoad", None()))
-		} else {
-			c.obs = append(c.obs, C("RLoad", Some(offT(off))))
-		}
+		c.doLoad(k, rng.Intn(4))
+	}
+	_ = ctx
+}
+
+func (c *storeCase) doSave(k, id int, off eb.Offset) {
+	err := c.stores[k].SaveOffset(context.Background(), fmt.Sprintf("sub-%d", id), off)
+	c.ops = append(c.ops, C("SSave", Nat(k), Nat(id), offT(off)))
+	c.obs = append(c.obs, C("RSave", B(err == nil)))
+	c.tags["save"] = true
+}
+
+func (c *storeCase) doLoad(k, id int) {
+	off, err := c.stores[k].LoadOffset(context.Background(), fmt.Sprintf("sub-%d", id))
+	c.ops = append(c.ops, C("SLoad", Nat(k), Nat(id)))
+	if err != nil {
+		c.obs = append(c.obs, C("RLoad", None()))
+	} else {
+		c.obs = append(c.obs, C("RLoad", Some(offT(off))))
 	}
 }
 
@@ -327,6 +335,19 @@ func runStoreCase(kind string) func(rng *rand.Rand, idx int, tier string) Case {
 			c.doStream(0, c.pool[0][8])
 			c.doStream(1, eb.OffsetOldest)
 			c.doRead(1, eb.OffsetOldest, 0)
+			// saved offsets are a plain map: a later save of a LOWER position (a subscription reset) replaces the earlier
+			// one, another id is untouched, and a read resumed from what was loaded starts there
+			c.doSave(0, 0, c.pool[0][6])
+			c.doSave(0, 1, c.pool[0][10])
+			c.doLoad(0, 0)
+			c.doSave(0, 0, c.pool[0][2])
+			c.doLoad(0, 0)
+			c.doLoad(0, 1)
+			c.doRead(0, c.pool[0][2], 0)
+			c.doSave(0, 0, c.pool[0][9])
+			c.doLoad(0, 0)
+			c.doSave(0, 1, c.pool[0][0])
+			c.doLoad(0, 1)
 			return c.finish()
 		}
 		n := 8 + rng.Intn(30)
